@@ -4,7 +4,7 @@ import itertools
 
 from hypothesis import strategies as st
 
-from vlib import cidlib
+from vlib import cidlib, gen_tables
 from vlib.runner import norm_message
 
 import cutplace
@@ -45,7 +45,8 @@ CID_ROWS = [
 ]
 HEAD = [["key", "val", "grp"]]
 CLEAN = HEAD + [["1", "a", "g"], ["2", "b", "g"], ["3", "a", "g"]]
-DUP = HEAD + [["1", "a", "g"], ["4", "b", "g"], ["1", "b", "g"], ["5", "a", "g"]]
+# the duplicate row carries a value no accepted row has: it must never reach the checks declared after IsUnique
+DUP = HEAD + [["1", "a", "g"], ["4", "b", "g"], ["1", "c", "g"], ["5", "a", "g"]]
 THREE = HEAD + [["6", "c", "g"], ["2", "d", "g"], ["7", "a", "g"]]
 BAD = HEAD + [["8", "c", "g"], ["9", "zzz", "g"], ["1", "a", "g"]]
 OTHER_GROUP = HEAD + [["1", "c", "h"], ["2", "c", "h"]]
@@ -59,8 +60,14 @@ def _describe(item):
     if isinstance(item, Exception):
         location = getattr(item, "location", None)
         also = getattr(item, "see_also_location", None)
+        cell = None
+        if location is not None:
+            try:
+                cell = location.cell
+            except AssertionError:  # a location that counts characters instead of cells
+                cell = None
         return ["error", type(item).__name__, str(item), None if location is None else location.line,
-                None if location is None else location.cell, None if also is None else also.line]
+                cell, None if also is None else also.line]
     return ["row", list(item)]
 
 
@@ -291,11 +298,118 @@ def check_long(sub, case):
              sample={"ops": names}, evals=0)
 
 
+# -- generated CIDs, generated data sets, generated operation sequences ---------------------------------------------
+_LINE_ENDS = {"LF": ["\n"], "CR": ["\r"], "CRLF": ["\r\n"], "Any": ["\n", "\r\n", "\r"], None: ["\n", "\r\n", "\r"]}
+
+
+@st.composite
+def generated_cases(draw):
+    spec = draw(gen_tables.cid_specs(kinds=("delimited", "delimited-de", "fixed"), max_fields=3, max_header=1,
+                                     checks=draw(st.sampled_from(["always", "always", "some"]))))
+    tables = [draw(gen_tables.tables(spec, max_rows=6)) for _ in range(draw(st.integers(1, 3)))]
+    ends = _LINE_ENDS[spec["fmt"].get("line_delimiter")]
+    ops = []
+    for _ in range(draw(st.integers(2, 8))):
+        kind = draw(st.sampled_from(["read", "read", "abandon", "noclose", "validate", "write", "write"]))
+        op = {"kind": kind, "table": draw(st.integers(0, len(tables) - 1)), "end": draw(st.sampled_from(ends))}
+        if kind == "read":
+            op["mode"] = draw(st.sampled_from(["yield", "continue", "raise"]))
+            op["until"] = draw(st.sampled_from([None, None, 0, 1, 3]))
+        elif kind == "abandon":
+            op["take"] = draw(st.integers(1, 3))
+        elif kind == "validate":
+            op["until"] = draw(st.sampled_from([None, 0, 2]))
+        elif kind == "write":
+            op["close"] = draw(st.booleans())
+        ops.append(op)
+    return {"spec": spec, "tables": tables, "ops": ops}
+
+
+def _generated_text(spec, rows, end):
+    if spec["fmt"]["format"] == "fixed":
+        return "".join("".join(row) + end for row in rows)
+    return gen_tables.delimited_text(rows, end)
+
+
+def _generated_op(cid, spec, tables, op, held):
+    rows = tables[op["table"]]
+    kind = op["kind"]
+    if kind == "write":
+        return _write(cid, rows[spec["fmt"].get("header", 0):], op["close"])
+    source = io.StringIO(_generated_text(spec, rows, op["end"]), newline="")
+    if kind == "validate":
+        try:
+            cutplace.validate(cid, source, validate_until=op["until"])
+            return {"ended": None}
+        except Exception as error:
+            return {"ended": _describe(error)}
+    if kind == "noclose":
+        reader = validio.Reader(cid, source, on_error="yield")
+        held.append(reader)
+        out, ended = [], None
+        try:
+            for item in reader.rows():
+                out.append(_describe(item))
+        except Exception as error:
+            ended = _describe(error)
+        return {"items": out, "ended": ended}
+    out, ended = [], None
+    generator = cutplace.rows(cid, source, on_error=op.get("mode", "yield"), validate_until=op.get("until"))
+    try:
+        for item in generator:
+            out.append(_describe(item))
+            if kind == "abandon" and len(out) >= op["take"]:
+                break
+    except Exception as error:
+        ended = _describe(error)
+    finally:
+        try:
+            generator.close()
+        except Exception as error:
+            ended = ["close-error"] + _describe(error)
+    return {"items": out, "ended": ended}
+
+
+def check_generated(sub, case):
+    spec, tables, ops = case["spec"], case["tables"], case["ops"]
+    cid_rows = cidlib.cid_rows(spec["fmt"], spec["fields"], gen_tables.check_rows(spec))
+    try:
+        shared = cidlib.load_cid(cid_rows)
+    except Exception as error:
+        sub.fail("C08|cid-load|%s|%s" % (type(error).__name__, norm_message(error)), case,
+                 "generated CID rejected: %s" % error)
+        return
+    held, fresh_held = [], []
+    try:
+        for position, op in enumerate(ops):
+            actual = _generated_op(shared, spec, tables, op, held)
+            fresh = _generated_op(cidlib.load_cid(cid_rows), spec, tables, op, fresh_held)
+            sub.evaluations += 1
+            if actual != fresh:
+                sub.fail("C08|generated|differs|%s|%s|%s" % (spec["fmt"]["format"], op["kind"],
+                                                            _first_difference(fresh, actual)), case,
+                         "operation %d (%r) after %r: on the shared CID %r, on a fresh CID %r" % (
+                             position + 1, op, ops[:position], actual, fresh))
+                break
+    finally:
+        _finalize(held)
+        _finalize(fresh_held)
+    kinds = sorted(set(op["kind"] for op in ops))
+    sub.case((cid_rows, tables, [sorted(op.items()) for op in ops]), bool(spec["checks"]) and len(ops) >= 2,
+             ["generated:format:" + spec["fmt"]["format"], "generated:checks:%d" % len(spec["checks"])] +
+             ["generated:has-" + k for k in kinds],
+             sample={"cid": cid_rows, "tables": [t[:4] for t in tables], "ops": ops[:5]}, evals=0)
+
+
 def run(ctx):
     shards = ctx.workers * 2
     ctx.par(_shard, [(i, shards, ctx.n(4, 5)) for i in range(shards)])
     ctx.hyp("long", long_cases, check_long, ctx.n(1500, 20000))
+    ctx.hyp("generated", generated_cases, check_generated, ctx.n(800, 20000))
 
 
 def replay(sub, case):
-    check_long(sub, case)
+    if "spec" in case:
+        check_generated(sub, case)
+    else:
+        check_long(sub, case)
